@@ -5,10 +5,9 @@ import (
 	"fmt"
 	"math/big"
 	"os"
+	"path/filepath"
 	"runtime"
-	"runtime/pprof"
 	"strings"
-	"time"
 
 	"github.com/lianxiangcloud/linkchain/blockchain"
 	"github.com/lianxiangcloud/linkchain/consensus"
@@ -61,6 +60,13 @@ type crashRun struct {
 	procs     int // GOMAXPROCS at entry
 	caseProcs int
 	seen      map[string]bool
+	kv        bool // flat key/value state mode (the default light node) instead of the trie
+	dirs      int
+}
+
+func (x *crashRun) newDir() string {
+	x.dirs++
+	return filepath.Join(x.c.Scratch, fmt.Sprintf("node-%d", x.dirs))
 }
 
 func openWrapped(g *chainkit.Genesis, nd *nodeDBs) (n *chainkit.Node, err error, pan interface{}) {
@@ -69,7 +75,10 @@ func openWrapped(g *chainkit.Genesis, nd *nodeDBs) (n *chainkit.Node, err error,
 			pan = r
 		}
 	}()
-	n, err = chainkit.OpenNode(g, nd.raw, chainkit.NodeOpts{WrapDB: nd.wrap})
+	if nd.kv {
+		os.MkdirAll(nd.dir, 0755)
+	}
+	n, err = chainkit.OpenNodeMode(g, nd.raw, chainkit.NodeOpts{WrapDB: nd.wrap}, !nd.kv)
 	if n != nil && n.UtxoStore != nil {
 		n.UtxoStore.SetLogger(log.NewNopLogger()) // node.NewNode sets one; the store logs on its error paths
 	}
@@ -201,7 +210,7 @@ type trial struct {
 }
 
 type pendingBlock struct {
-	snap    dbSnap
+	snap    *dbSnap
 	parts   *types.PartSet
 	commit  *types.Commit
 	info    blockInfo
@@ -214,12 +223,13 @@ type pendingBlock struct {
 func runCrash(c *core.Ctx) {
 	r := c.Rng
 	gseed := r.Uint64()
-	g, err := chainkit.BuildGenesis(chainkit.GenesisOpts{Seed: gseed, NumAccounts: 5, Powers: []int64{10, 10, 10, 10}})
+	kv := (c.Index/crashEvery/2)%2 == 1
+	g, err := chainkit.BuildGenesisMode(chainkit.GenesisOpts{Seed: gseed, NumAccounts: 5, Powers: []int64{10, 10, 10, 10}}, !kv)
 	if err != nil {
 		c.Inconclusive("genesis: " + err.Error())
 		return
 	}
-	x := &crashRun{c: c, g: g, ge: newGen(g, r.Split(), gseed), procs: runtime.GOMAXPROCS(0), seen: map[string]bool{}}
+	x := &crashRun{kv: kv, c: c, g: g, ge: newGen(g, r.Split(), gseed), procs: runtime.GOMAXPROCS(0), seen: map[string]bool{}}
 	// GOMAXPROCS alternates per case between 2 and 16 (switching it stops the world and waits for
 	// a running GC cycle: far too slow per crash point); the schedule of the only concurrent
 	// writers of the commit sequence is enumerated deterministically by the gate instead.
@@ -260,7 +270,7 @@ func runCrash(c *core.Ctx) {
 		plan[len(plan)-1] = []string{"plain", "empty"}[r.Intn(2)]
 	}
 
-	baseDBs := &nodeDBs{raw: g.CloneDBs(), c: newCtl()}
+	baseDBs := &nodeDBs{raw: g.CloneDBs(), c: newCtl(), kv: kv, dir: x.newDir()}
 	base, err, pan := openWrapped(g, baseDBs)
 	if err != nil || pan != nil {
 		c.Inconclusive(fmt.Sprintf("base node: %v %v", err, pan))
@@ -292,7 +302,7 @@ func runCrash(c *core.Ctx) {
 				}
 			}
 		}
-		snap := snapshot(baseDBs.raw)
+		snap := snapshot(baseDBs)
 		block, parts, err := base.Propose(lastCommit, uint64(chainkit.FixedTime.Unix())+height, extra)
 		if err != nil {
 			c.Inconclusive("propose: " + err.Error())
@@ -353,12 +363,14 @@ func runCrash(c *core.Ctx) {
 			c.Count("blocks_without_conf", 1)
 		}
 	}
-	if c.Verbose && os.Getenv("C13_TIMING") != "" {
-		pprof.Lookup("goroutine").WriteTo(os.Stdout, 1)
+	if x.kv {
+		c.Count("crash_cases_flatkv", 1)
+	} else {
+		c.Count("crash_cases_trie", 1)
 	}
 	c.Nontrivial(fmt.Sprintf("crash:%x", rng.Derive(0, fp, int(gseed%1000003)).Uint64()))
 	if c.Index%8 == 0 {
-		c.Sample(map[string]interface{}{"lane": "crash", "chain": x.chain})
+		c.Sample(map[string]interface{}{"lane": "crash", "flat_kv_mode": x.kv, "gomaxprocs": x.caseProcs, "chain": x.chain})
 	}
 }
 
@@ -408,21 +420,9 @@ func (x *crashRun) enumerate(pb *pendingBlock) bool {
 // from the surviving bytes, evaluate the oracle and let the restarted node continue.
 func (x *crashRun) runTrial(pb *pendingBlock, t *trial, k int64, gt *gate) ([]unit, bool) {
 	c := x.c
-	t0 := time.Now()
-	lap := func(what string) {
-		if c.Verbose && os.Getenv("C13_TIMING") != "" {
-			fmt.Printf("    lap %-12s %v\n", what, time.Since(t0))
-			t0 = time.Now()
-		}
-	}
-	defer lap("rest")
-	if c.Verbose && os.Getenv("C13_TIMING") != "" {
-		fmt.Printf("    goroutines %d\n", runtime.NumGoroutine())
-	}
-	nd := pb.snap.restore()
-	lap("restore")
+	nd := pb.snap.restore(x.newDir())
+	defer os.RemoveAll(nd.dir)
 	n, err, pan := openWrapped(x.g, nd)
-	lap("open")
 	if err != nil || pan != nil {
 		c.Inconclusive(fmt.Sprintf("trial node on pre-commit clone: %v %v", err, pan))
 		return nil, false
@@ -448,7 +448,6 @@ func (x *crashRun) runTrial(pb *pendingBlock, t *trial, k int64, gt *gate) ([]un
 		}
 		c.Count("clean_restarts", 1)
 	}
-	lap("decode")
 	nd.c.arm(k, true, gt)
 	var acceptErr error
 	var acceptPanic interface{}
@@ -456,14 +455,8 @@ func (x *crashRun) runTrial(pb *pendingBlock, t *trial, k int64, gt *gate) ([]un
 		defer func() { acceptPanic = recover() }()
 		_, acceptErr = n.Accept(fb, rp, pb.commit, false)
 	}()
-	lap("accept-only")
-	if c.Verbose && os.Getenv("C13_TIMING") != "" && time.Since(t0) > 50*time.Millisecond {
-		fmt.Printf("    SLOW accept %v k=%d order=%q procs=%d height=%d\n", time.Since(t0), k, t.Order, t.Procs, t.Height)
-	}
-	lap("accept")
 	seq, dropped, log := nd.c.units()
 	n.Close()
-	lap("close")
 	if gt != nil {
 		gt.stop()
 	}
@@ -499,11 +492,11 @@ func (x *crashRun) runTrial(pb *pendingBlock, t *trial, k int64, gt *gate) ([]un
 	c.Count("cut:"+t.Cut, 1)
 
 	// ---- restart from the surviving bytes
-	nd2 := &nodeDBs{raw: nd.raw, c: newCtl()}
+	nd2 := nd.reopen()
 	rawStatus, _ := consensus.LoadStatus(nd2.wrap("consensus_state", nd2.raw["consensus_state"]))
-	var post dbSnap // the surviving bytes, kept when the restart has to rebuild the status
+	var post *dbSnap // the surviving bytes, kept when the restart has to rebuild the status
 	if rawStatus.LastBlockHeight+1 == blockchain.LoadBlockStoreStateJSON(nd2.wrap("blockstore", nd2.raw["blockstore"])).Height {
-		post = snapshot(nd.raw)
+		post = snapshot(nd)
 	}
 	nd2.c.arm(-1, false, nil)
 	n2, err, pan := openWrapped(x.g, nd2)
@@ -517,7 +510,6 @@ func (x *crashRun) runTrial(pb *pendingBlock, t *trial, k int64, gt *gate) ([]un
 	}
 	defer n2.Close()
 	recoveryUnits, _, _ := nd2.c.units()
-	lap("reopen")
 	c.Count("restarts", 1)
 	h := n2.BlockStore.Height()
 	P := pb.P
@@ -552,7 +544,6 @@ func (x *crashRun) runTrial(pb *pendingBlock, t *trial, k int64, gt *gate) ([]un
 		o.consequence = func() (string, interface{}) { return x.tryDoubleSpend(pb, t, n2) }
 	}
 	consistent := o.check(h, lost)
-	lap("oracle")
 
 	// the restarted consensus state must be constructible (reconstructLastCommit reads the seen commit)
 	if pan := tryPanic(func() {
@@ -590,17 +581,17 @@ func (x *crashRun) runTrial(pb *pendingBlock, t *trial, k int64, gt *gate) ([]un
 
 // recoveryCrashes: the restart itself writes (the one-block status rebuild). Crash it after each
 // of its writes, restart once more and judge again: recovery must be restartable.
-func (x *crashRun) recoveryCrashes(t *trial, post dbSnap, units int64, h uint64) {
+func (x *crashRun) recoveryCrashes(t *trial, post *dbSnap, units int64, h uint64) {
 	c := x.c
 	t2 := *t
 	t2.Cut = t.Cut + "+recovery-interrupted"
 	for j := int64(0); j < units; j++ {
-		ndj := post.restore()
+		ndj := post.restore(x.newDir())
 		ndj.c.arm(j, false, nil)
 		if nj, _, _ := openWrapped(x.g, ndj); nj != nil {
 			nj.Close()
 		}
-		nd3 := &nodeDBs{raw: ndj.raw, c: newCtl()}
+		nd3 := ndj.reopen()
 		n3, err, pan := openWrapped(x.g, nd3)
 		c.Count("recovery_crash_points", 1)
 		if err != nil || pan != nil {
@@ -613,6 +604,7 @@ func (x *crashRun) recoveryCrashes(t *trial, post dbSnap, units int64, h uint64)
 		o := &oracle{c: c, n: n3, ref: x.ref, report: func(key, detail string, w interface{}) { x.viol(&t2, key, detail, w) }}
 		o.check(h, nil)
 		n3.Close()
+		os.RemoveAll(ndj.dir)
 	}
 }
 
@@ -739,5 +731,5 @@ func (x *crashRun) viol(t *trial, key, detail string, extra interface{}) {
 	if t.Next != "" {
 		d += "; first dropped: " + t.Next
 	}
-	x.c.Violation(key, d+": "+detail, map[string]interface{}{"trial": t, "chain_so_far": x.chain, "observed": extra})
+	x.c.Violation(key, d+": "+detail, map[string]interface{}{"trial": t, "flat_kv_mode": x.kv, "chain_so_far": x.chain, "observed": extra})
 }
